@@ -119,7 +119,7 @@ def parallel_lists(ctx, repo):
 
 
 def duplicate_conjuncts(ctx, repo, scope=("cu2qu/", "qu2cu/", "pens/")):
-    ctx.rule("DUP", "no boolean expression repeats an operand verbatim, and x/y twin tests come in both coordinates (copy-paste slips such as testing [0] twice)", floor=3)
+    ctx.rule("DUP" if len(scope) == 3 else "DUP-wide", "no boolean expression repeats an operand verbatim, and x/y twin tests come in both coordinates (copy-paste slips such as testing [0] twice)", floor=3)
     n = 0
     for rel in sorted(repo.rels()):
         if not rel.startswith(scope):
@@ -148,7 +148,7 @@ def duplicate_conjuncts(ctx, repo, scope=("cu2qu/", "qu2cu/", "pens/")):
                     else:
                         detail = f"operand repeated: {dup[0]}"
                     if not ok or any("[0]" in o and "[1]" in " ".join(ops) for o in ops) or dup:
-                        ctx.ob("DUP", f.where, norm(node)[:100], ok, detail)
+                        ctx.ob("DUP" if len(scope) == 3 else "DUP-wide", f.where, norm(node)[:100], ok, detail)
     ctx.info["boolops_scanned"] = n
 
 
